@@ -240,42 +240,7 @@ func checkC17(c *Ctx, r *Report) {
 			continue
 		}
 		n++
-		name := c.FnName(fn)
-		r.Fn(name)
-		s := k.summarize(fn, 0)
-		if !s.ok {
-			r.Unk(name+"|summary", fn.Pos(), "path enumeration incomplete or recursive callee")
-			continue
-		}
-		if s.paths == 0 {
-			r.Unk(name+"|success paths", fn.Pos(), "no success path found")
-			continue
-		}
-		var missing []string
-		for f := range s.may {
-			if !s.must[f] && !strings.HasSuffix(f, "(partial)") {
-				missing = append(missing, f)
-			}
-		}
-		sort.Strings(missing)
-		var partial []string
-		for f := range s.partial {
-			partial = append(partial, f)
-		}
-		sort.Strings(partial)
-		if len(missing) == 0 && len(partial) == 0 {
-			r.OK(name+"|all fields", fn.Pos(), fmt.Sprintf("%d fields assigned on all %d success paths", len(s.must), s.paths))
-			continue
-		}
-		for _, f := range missing {
-			r.Bad(name+"|field "+f, fn.Pos(), "field "+f+" is assigned on some success paths but not on others: decoding into a reused value keeps the earlier content")
-		}
-		for _, f := range partial {
-			if s.must[f] {
-				continue
-			}
-			r.Bad(name+"|field "+f, s.partial[f], "array field "+f+" is filled by a copy whose source may be shorter than the array: the tail keeps bytes of an earlier decode")
-		}
+		reportAssignment(c, r, k, fn)
 	}
 	r.Extra["decoders"] = n
 
@@ -321,5 +286,46 @@ func checkC17(c *Ctx, r *Report) {
 			pos = exch.Pos()
 		}
 		r.Check(ok, name+"|code read after successful exchange", pos, "read only on the success arm, after the exchange", "the completion code is read before the exchange or on its error arm: it would be a previous command's")
+	}
+}
+
+
+// reportAssignment reports the definite-assignment verdict of one decoder.
+func reportAssignment(c *Ctx, r *Report, k *c17, fn *ssa.Function) {
+	name := c.FnName(fn)
+	r.Fn(name)
+	s := k.summarize(fn, 0)
+	if !s.ok {
+		r.Unk(name+"|summary", fn.Pos(), "path enumeration incomplete or recursive callee")
+		return
+	}
+	if s.paths == 0 {
+		r.Unk(name+"|success paths", fn.Pos(), "no success path found")
+		return
+	}
+	var missing []string
+	for f := range s.may {
+		if !s.must[f] && !strings.HasSuffix(f, "(partial)") {
+			missing = append(missing, f)
+		}
+	}
+	sort.Strings(missing)
+	var partial []string
+	for f := range s.partial {
+		partial = append(partial, f)
+	}
+	sort.Strings(partial)
+	if len(missing) == 0 && len(partial) == 0 {
+		r.OK(name+"|all fields", fn.Pos(), fmt.Sprintf("%d fields assigned on all %d success paths", len(s.must), s.paths))
+		return
+	}
+	for _, f := range missing {
+		r.Bad(name+"|field "+f, fn.Pos(), "field "+f+" is assigned on some success paths but not on others: decoding into a reused value keeps the earlier content")
+	}
+	for _, f := range partial {
+		if s.must[f] {
+			continue
+		}
+		r.Bad(name+"|field "+f, s.partial[f], "array field "+f+" is filled by a copy whose source may be shorter than the array: the tail keeps bytes of an earlier decode")
 	}
 }
